@@ -728,6 +728,7 @@ var _ rpc.Resources
 //@   ensures[C10] callcount("Enqueue") == old(callcount("Enqueue")) + 1
 //@ closure (*wsConn).TokenReset#1
 //@   requires predConnOK(c)
+//@   assert[C11] c.serv.cache.CustomAuth#1: !c.disposing
 //@   assert[C10] c.serv.cache.CustomAuth#1: c.tid != "" && has(tids, c.tid) && tids[c.tid] && arg0 == c && arg1 == subject && arg2 == "" && arg3 == c.token && arg4 == nil
 //@   ensures[C10] old(c.tid) == "" || !old(has(tids, c.tid) && tids[c.tid]) ==> callcount("CustomAuth") == old(callcount("CustomAuth"))
 //@   safety[C15]
@@ -1221,6 +1222,9 @@ var _ rpc.Resources
 //@ closure (*wsConn).call#1
 //@   requires predConnOK(c) && predSubOf(sub, c)
 //@   resolves[C07] cb exactly-once
+// (work accepted before the connection closed may still run after it: it must not turn into a
+// new service request on the closed connection's behalf)
+//@   assert[C11] c.serv.cache.Call#1: !c.disposing
 //@   assert[C05,C10] c.serv.cache.Call#1: err == nil && arg0 == c && arg1 == sub.resourceName && arg2 == sub.resourceQuery && arg3 == action && arg4 == c.token && arg5 == params && !arg6
 //@   safety[C15]
 //@ closure (*wsConn).call#2
